@@ -10,6 +10,7 @@ import (
 	"os"
 	"path/filepath"
 	"sort"
+	"strconv"
 	"strings"
 	"sync/atomic"
 
@@ -105,11 +106,26 @@ func sortLogNamesOldToNew(dirEntries []os.DirEntry) []string {
 	//   audit.log  audit.log.1  audit.log.2  audit.log.3  audit.log.4
 	//   $ test-app /var/log/audit/
 	//   [audit.log.4 audit.log.3 audit.log.2 audit.log.1 audit.log]
+	//
+	// The rotation number is compared as a number. Comparing the names as
+	// strings puts "audit.log.9" before "audit.log.10", so with ten or
+	// more rotated files newer logs would be read before older ones.
 	sort.Slice(oldestToNew, func(i, j int) bool {
-		return oldestToNew[i] > oldestToNew[j]
+		return logAge(oldestToNew[i]) > logAge(oldestToNew[j])
 	})
 
 	return oldestToNew
+}
+
+// logAge returns the rotation number of an audit log file name: zero for
+// "audit.log" and N for "audit.log.N". A higher number means an older log.
+func logAge(name string) int {
+	n, err := strconv.Atoi(strings.TrimPrefix(name, "audit.log."))
+	if err != nil {
+		return 0
+	}
+
+	return n
 }
 
 // LogDirReader reads audit logs from a directory and tails the active
